@@ -13,9 +13,14 @@ CHECKS = {
         technique="TLA+ machine cons/Transforms.tla (state = vector; Apply/Reapply; theorems for idempotence, selectivity, target "
                   "membership, conforming-unchanged, per-step footprint) evaluated by TLC over every vector of a bounded class x "
                   "a decorator catalogue; TLC emits the expected result or post-condition of every (vector, decorator) pair and "
-                  "every short script, which the harness replays on the real decorators",
+                  "every short script, which the harness replays on the real decorators; for impose_as TLC enumerates the tracking "
+                  "masks itself (MC_TransformsAs*: every list of <=3 (thorough <=4) pairs forming a graded forest on 4 (5) positions, "
+                  "both orientations, every list order, negative spellings) and emits source + offset*depth for every (mask, offset, "
+                  "vector); the docstring examples are ASSUMEd",
         text="Covers impose_bounds (tuple/list/dict forms, all clip/nearest modes), discrete, integers, rounded/precision "
-             "(digits None/0/1/-1), impose_unique, monotonic/sorting, impose_at, impose_as, with_mean/with_variance/"
+             "(digits None/0/1/-1), impose_unique, monotonic/sorting, impose_at, impose_as on general masks (chains, fan-in/out, "
+             "trees, forests, diamonds; offsets None/0/1/-0.5; partially out-of-range and negative pairs: quick 1,114 masks x 4 "
+             "offsets x 31 vectors), synchronized incl. callable scale/shift forms, with_mean/with_variance/"
              "with_spread/normalized, masked/partial/synchronized/clipped/suppressed against the spec for every vector of "
              "half-integers of length 0-3 (quick: 259 vectors x 370 decorators) or 0-4 (thorough: 2801 x ~640), as list and "
              "ndarray; index selections None/single/negative/tuples/partially and fully out of range; interval sets one/gap/"
@@ -25,7 +30,9 @@ CHECKS = {
         note="trusted: TLC's evaluation of Transforms.tla, the JSON emission, the harness' mapping from catalogue record to "
              "decorator call; randomising modes are checked against post-conditions with seeded RNGs; moment decorators exact "
              "when divisors are powers of two, else 1e-12 (irrational scales: mean/variance to 1e-9); premises (operator "
-             "Defined): no out-of-range/aliasing multi-index for sorting/monotonic, star-shaped impose_as/synchronized masks, "
+             "Defined): no out-of-range/aliasing multi-index for sorting/monotonic; impose_as masks must admit y[j] = y[i] + offset for all "
+             "pairs (no cycle, single depth per entry, no double spelling) - masks not listed source-first are judged too and "
+             "fall under the known finding as:pair-order; synchronized masks without chains (documented as unordered); "
              "non-degenerate spread/variance/sum",
         design_ref="DESIGN.md section 4/C16"),
     "C19": dict(
@@ -252,7 +259,10 @@ CHECKS.update({
                   "last minimal member, evaluation accounting) and solver/Grid.tla (gridpts order, lattice cell centres, generator "
                   "post-conditions) model-checked by TLC; every complete behaviour TLC emits is replayed on real Lattice/Buckshot "
                   "ensembles with scripted members under a map executing the emitted completion orders (spec->code), and recorded "
-                  "real ensemble solves are validated by TLC against solver/Trace_Ensemble.tla (code->spec)",
+                  "real ensemble solves are validated by TLC against solver/Trace_Ensemble.tla (code->spec); the samplers and the "
+                  "Searcher built on the ensembles are specified the same way (solver/Sampler.tla, Searcher.tla: one action per "
+                  "public call, refuted as-is designs; TLC-emitted call scripts executed on the real classes, recorded runs "
+                  "validated against Trace_Sampler / Trace_Searcher)",
         text="Design: for <=4 members with tied energies, solve and step mode and every completion order of every map call TLC "
              "checks best = min, best is that member's solution (tie rule), total = sum of member evaluations = real calls, "
              "member count, schedule independence; the design reducing in completion order is refuted.  Implementation: every "
@@ -262,11 +272,20 @@ CHECKS.update({
              "LatticeSolver._InitialPoints exactly; real lattice/buckshot/sparsity solves (class API and wrappers; NM/Powell/DE "
              "members; strict ranges, constraints, penalty, limits, terminations; serial/python_map/reversed/shuffled/thread-pool "
              "maps; Solve vs step mode) recorded with one event per completed work item and validated by TLC (8k traces quick); "
-             "randomly_bin/samplepts/fillpts/random_samples outputs judged by TLC against the Grid post-conditions.",
+             "randomly_bin/samplepts/fillpts/random_samples outputs judged by TLC against the Grid post-conditions.  Samplers "
+             "(Lattice/Buckshot/Sparsity/Mixed): evals() equals the real model calls, iters() one per member and round, members "
+             "continue between rounds and are re-created per the documented if_terminated/reset_all policy, sample_until returns "
+             "exactly when a stop condition first holds, reset restores the constructed ensemble, every evaluated point lies in "
+             "the bounds (635 scripts + 100 real runs quick).  Searcher: the archive holds exactly the evaluated pairs, the "
+             "cache the members' best points, Minima() all entries at the minimum (ties), Samples() exactly the evaluations in "
+             "order, Search ends after `retry` fruitless passes in each of `repeat`+1 runs, Reset clears cache and trajectories "
+             "(114 scripts + 25 real runs quick).",
         note="trusted: TLC, the recorder (cost owned by the harness, calls attributed to the member whose work item the calling "
              "thread executes), energies as order-preserving ranks; lattice bounds are multiples of 0.75 so cell centres are "
              "exact; nested solver given as a class (a pre-configured instance is documented to be used as is); process-based "
-             "maps not available in the sandbox",
+             "maps not available in the sandbox; samplers: nominal +1 evaluation for an idle terminated member is a stated "
+             "assumption, the `id` keyword (IndexError for id != 0 with if_terminated=True) and evalmon backfill are observations "
+             "left unbound",
         design_ref="DESIGN.md section 4/C09"),
     "C12": dict(
         level="exploration",
